@@ -9,7 +9,39 @@ STR_POOLS = [
 ]
 
 
+def fresh(x):
+    """an object EQUAL to x but (where CPython allows) not IDENTICAL to it: names reach the library as separately built objects,
+    the way they do when they are parsed, computed or read from a DataFrame"""
+    if isinstance(x, str):
+        return "".join(list(x))
+    if isinstance(x, bool):
+        return x
+    if isinstance(x, int):
+        return int(str(x))
+    if isinstance(x, tuple):
+        return tuple(fresh(e) for e in x)
+    return x
+
+
+class FreshDict(dict):
+    """token -> name map whose lookups hand out fresh-but-equal name objects (iteration / items() give the stored ones)"""
+
+    def __getitem__(self, k):
+        return fresh(dict.__getitem__(self, k))
+
+    def get(self, k, default=None):
+        return fresh(dict.get(self, k, default))
+
+
 def var_names(tokens, rng, kind="str"):
+    return FreshDict(_var_names(tokens, rng, kind))
+
+
+def state_names(states, rng, kind="str"):
+    return FreshDict(_state_names(states, rng, kind))
+
+
+def _var_names(tokens, rng, kind="str"):
     """Return {token: concrete name}.  kind: str | int | tuple | mixed | ident(tity)"""
     tokens = sorted(tokens)
     if kind == "ident":
@@ -18,16 +50,16 @@ def var_names(tokens, rng, kind="str"):
         pool = list(rng.choice(STR_POOLS))
         rng.shuffle(pool)
         return {t: pool[i] for i, t in enumerate(tokens)}
-    if kind == "int":
-        vals = rng.sample(range(0, 50), len(tokens))
+    if kind == "int":          # small (cached by CPython) and large ints
+        vals = rng.sample(list(range(0, 30)) + list(range(1000, 1020)), len(tokens))
         return {t: vals[i] for i, t in enumerate(tokens)}
     if kind == "tuple":
-        vals = rng.sample(range(0, 50), len(tokens))
+        vals = rng.sample(list(range(0, 30)) + list(range(1000, 1020)), len(tokens))
         return {t: ("t", vals[i]) for i, t in enumerate(tokens)}
     raise ValueError(kind)
 
 
-def state_names(states, rng, kind="str"):
+def _state_names(states, rng, kind="str"):
     """states: list of state tokens (declared order).  Returns {token: concrete state name}."""
     if kind == "ident":
         return {s: s for s in states}
